@@ -470,6 +470,12 @@ func (fc *FnCtx) applyContract(s *State, x *ssa.Call, ct *Contract, callee *ssa.
 			post.names["result"] = rv
 		}
 	}
+	calleeGhosts := map[string]Val{}
+	for _, g := range ct.Ghosts {
+		gv := mathInt(fc.fresh("g_"+mangle(site)+"_"+g, SInt))
+		post.names[g] = gv
+		calleeGhosts["ghost_"+g] = gv
+	}
 	for _, c := range ct.Ensures {
 		if c.Assumed {
 			fc.usedAssumed[fmt.Sprintf("%s.ensures[%s] (clause assumed)", ckey, c.Label)] = true
@@ -491,6 +497,9 @@ func (fc *FnCtx) applyContract(s *State, x *ssa.Call, ct *Contract, callee *ssa.
 					for i, el := range result.Elems {
 						henv.bound[fmt.Sprintf("result%d", i)] = el
 					}
+				}
+				for gn, gv := range calleeGhosts {
+					henv.bound[gn] = gv
 				}
 				if h.E.Kind == "call" && h.E.Name == "cases" && len(h.E.Args) == 3 {
 					// cases(result, lo, hi): case split on the call's (integer) result
